@@ -6,11 +6,13 @@ import (
 	"math/rand"
 	"strconv"
 	"strings"
+	"sync/atomic"
 	"time"
 
 	"verif/harness/host"
 	"verif/harness/resp"
 	"verif/harness/verdict"
+	"verif/harness/wire"
 )
 
 func init() { register("C01", "exploration", checkC01) }
@@ -200,14 +202,24 @@ func c01Run(r *verdict.Run, c *host.Child, proto int, seq c01Seq, nonce string, 
 		c.Do(5*time.Second, "records")
 	}
 	all := append(append([][]string{}, seq.cmds...), []string{"ECHO", nonce})
+	var sending atomic.Bool // the request bytes are still being written (in delayed segments) by another goroutine
 	read := func(i int) bool {
-		v, raw, err := cn.ReadValue(cn.Timeout)
-		if err != nil {
-			failure = fmt.Sprintf("reply %d of %d (%s): %v; unparsed bytes %q", i, len(all), cmdString(all[i]), err, truncBytes(cn.Pending(), 120))
-			return false
+		started := time.Now()
+		for {
+			before := cn.SentBytes()
+			v, raw, err := cn.ReadValue(cn.Timeout)
+			if err == wire.ErrTimeout && (sending.Load() || cn.SentBytes() != before) && time.Since(started) < 5*time.Minute {
+				// the reply is not due yet: its request has not been sent completely (slow segmented send on a loaded machine)
+				r.Count("waits_for_slow_segmented_send", 1)
+				continue
+			}
+			if err != nil {
+				failure = fmt.Sprintf("reply %d of %d (%s): %v; unparsed bytes %q", i, len(all), cmdString(all[i]), err, truncBytes(cn.Pending(), 120))
+				return false
+			}
+			replies = append(replies, c01Reply{raw, v.Canon()})
+			return true
 		}
-		replies = append(replies, c01Reply{raw, v.Canon()})
-		return true
 	}
 	if mode == "reference" {
 		for i, cmd := range all {
@@ -224,7 +236,12 @@ func c01Run(r *verdict.Run, c *host.Child, proto int, seq c01Seq, nonce string, 
 			b = append(b, resp.Cmd(cmd...)...)
 		}
 		done := make(chan error, 1)
-		go func() { done <- cn.SendCuts(b, cuts, delay) }()
+		sending.Store(true)
+		go func() {
+			err := cn.SendCuts(b, cuts, delay)
+			sending.Store(false)
+			done <- err
+		}()
 		for i := range all {
 			if !read(i) {
 				return
